@@ -429,6 +429,13 @@ def plss_make(a):
         d.config = lay
         d.parse()
         return d
+    if lay and ch in ("obj_kwargs", "obj_dict"):      # a Config object built from keywords / a dict, at creation
+        base = pytrs.Config(cfg) if cfg else None
+        settings = {k: v for k, v in (vars(base).items() if base is not None else [])
+                    if v is not None and not k.startswith("_") and k not in ("config_text", "config_name")}
+        settings["layout"] = lay
+        cobj = pytrs.Config.from_kwargs(**settings) if ch == "obj_kwargs" else pytrs.Config.from_dict(settings)
+        return pytrs.PLSSDesc(text, config=cobj, source=src, **kw)
     if lay and ch == "assign_wait":     # ... of an object that has not been parsed yet
         d = pytrs.PLSSDesc(text, config=cfg, source=src, wait_to_parse=True, **kw)
         d.config = lay
@@ -1627,6 +1634,18 @@ def c08(case):
     try:
         cfg_parts = ["ocr_scrub"] if a["ocr"] else []
         kw, fkw = {}, {}
+        cfg_form = a.get("cfg_form", "text")
+        obj_settings = {"ocr_scrub": True} if a["ocr"] else {}
+        for axis, val, key in (("ns", dns, "default_ns"), ("ew", dew, "default_ew")):
+            if src[axis] == "config":
+                obj_settings[key] = val
+        # a Config object built from keywords / a dict: made first, before MasterConfig is touched - what it leaves
+        # unspecified stays unspecified
+        cobj = None
+        if cfg_form == "kwargs":
+            cobj = pytrs.Config.from_kwargs(**obj_settings)
+        elif cfg_form == "dict":
+            cobj = pytrs.Config.from_dict(dict(obj_settings))
         for axis, val, mcattr, key in (("ns", dns, "default_ns", "default_ns"), ("ew", dew, "default_ew", "default_ew")):
             sx = src[axis]
             if sx == "config":
@@ -1637,7 +1656,7 @@ def c08(case):
             elif sx == "keyword":
                 kw[key] = val
                 fkw[key] = val
-        cfg = ",".join(cfg_parts) or None
+        cfg = cobj if cobj is not None else (",".join(cfg_parts) or None)
         if kw:
             d = pytrs.PLSSDesc(text, config=cfg, wait_to_parse=True)
             d.parse(**kw)
